@@ -1,5 +1,7 @@
 // C05 harness: Matrix::Determinant / Invertible / Inverse on the case file (grammar: checks/C05.py)
 #include "common.hpp"
+#include <iterator>
+#include <map>
 #include <new>
 #include "libphysica/Linear_Algebra.hpp"
 using namespace libphysica;
@@ -28,10 +30,30 @@ static Matrix fresh(const Matrix& M)
 	return Matrix(e);
 }
 
+// The references into one object that the caller of a history holds:  std::vector<double>& r = M[i];  double& e = M[i][j];
+// (kept as pointers).  Which of them survive a member call follows the container rules, exactly as in the model
+// (coq/C05_Model.v, hkeep); a reference that did not survive is never used (HARNESSERR if the case asks for it).
+struct Refs
+{
+	std::map<long, std::pair<std::vector<double>*, long>> row;	 // handle -> (reference, row position)
+	std::map<long, double*> elt;
+	void clear()
+	{
+		row.clear();
+		elt.clear();
+	}
+	void keep_rows_below(long k)
+	{
+		elt.clear();
+		for(auto it = row.begin(); it != row.end();)
+			it = (it->second.second < k) ? std::next(it) : row.erase(it);
+	}
+};
+
 // One call of a history on the object M (grammar: checks/C05.py).  probe = true: after every query the same query is put
 // to a fresh object built from M's current entries (read through the const operator[] only) and both answers are printed;
 // probe = false: nothing but the calls of the history themselves runs in the process.
-static bool do_step(const std::string& st, vh::Reader& r, vh::Out& o, Matrix& M, bool probe)
+static bool do_step(const std::string& st, vh::Reader& r, vh::Out& o, Matrix& M, bool probe, Refs& refs)
 {
 	const int passes = probe ? 2 : 1;
 	if(st == "det" || st == "copydet" || st == "transdet" || st == "subdet")
@@ -94,7 +116,72 @@ static bool do_step(const std::string& st, vh::Reader& r, vh::Out& o, Matrix& M,
 	}
 	else
 	{
-		if(st == "add")
+		if(st == "hold")
+		{
+			// std::vector<double>& r_h = M[i];  (the non-const operator[]), kept for later
+			long h = r.integer(), i = r.integer();
+			std::vector<double>& row = M[i];
+			refs.row[h]				 = std::make_pair(&row, i);
+		}
+		else if(st == "holde")
+		{
+			long h = r.integer(), i = r.integer(), j = r.integer();
+			double& e	= M[i][j];
+			refs.elt[h] = &e;
+		}
+		else if(st == "hset" || st == "hrow" || st == "hswap" || st == "eset")
+		{
+			// writes through references taken earlier: no member function of M is called here
+			long h = r.integer();
+			if(st == "eset")
+			{
+				double v = r.num();
+				if(!refs.elt.count(h))
+				{
+					o.w("HARNESSERR no_such_reference");
+					return false;
+				}
+				*refs.elt[h] = v;
+			}
+			else if(st == "hswap")
+			{
+				long h2 = r.integer();
+				if(!refs.row.count(h) || !refs.row.count(h2))
+				{
+					o.w("HARNESSERR no_such_reference");
+					return false;
+				}
+				std::swap(*refs.row[h].first, *refs.row[h2].first);
+				refs.elt.clear();
+			}
+			else
+			{
+				long j = 0;
+				double v = 0.0;
+				std::vector<double> l;
+				if(st == "hset")
+				{
+					j = r.integer();
+					v = r.num();
+				}
+				else
+					l = r.list();
+				if(!refs.row.count(h))
+				{
+					o.w("HARNESSERR no_such_reference");
+					return false;
+				}
+				std::vector<double>& row = *refs.row[h].first;
+				if(st == "hset")
+					row[j] = v;
+				else
+				{
+					row = l;
+					refs.elt.clear();
+				}
+			}
+		}
+		else if(st == "add")
 			M += rd_mat(r);
 		else if(st == "sub")
 			M -= rd_mat(r);
@@ -108,24 +195,38 @@ static bool do_step(const std::string& st, vh::Reader& r, vh::Out& o, Matrix& M,
 		{
 			long i = r.integer(), j = r.integer();
 			std::swap(M[i], M[j]);
+			refs.elt.clear();
 		}
 		else if(st == "assignm")
+		{
 			M = rd_mat(r);
-		else if(st == "assign")
-		{
-			long i = r.integer(), j = r.integer();
-			double v = r.num();
-			M.Assign(i, j, v);
+			refs.clear();
 		}
-		else if(st == "resize")
+		else if(st == "assign" || st == "resize")
 		{
 			long i = r.integer(), j = r.integer();
-			M.Resize(i, j);
+			double v = (st == "assign") ? r.num() : 0.0;
+			long before = M.Rows();
+			if(st == "assign")
+				M.Assign(i, j, v);
+			else
+				M.Resize(i, j);
+			if(i <= before)
+				refs.keep_rows_below(i);
+			else
+				refs.clear();
 		}
 		else if(st == "delrow")
-			M.Delete_Row(r.integer());
+		{
+			long i = r.integer();
+			M.Delete_Row(i);
+			refs.keep_rows_below(i);
+		}
 		else if(st == "delcol")
+		{
 			M.Delete_Column(r.integer());
+			refs.elt.clear();
+		}
 		else
 		{
 			o.w("HARNESSERR unknown_step");
@@ -186,9 +287,10 @@ static void handler(vh::Reader& r, vh::Out& o)
 	{
 		// A call history on ONE Matrix object, every query also put to a fresh object with the same entries
 		Matrix M = rd_mat(r);
-		long k	 = r.integer();
+		Refs refs;
+		long k = r.integer();
 		for(long s = 0; s < k; s++)
-			if(!do_step(r.word(), r, o, M, true))
+			if(!do_step(r.word(), r, o, M, true, refs))
 				return;
 	}
 	else if(op == "hist")
@@ -196,6 +298,7 @@ static void handler(vh::Reader& r, vh::Out& o)
 		// A call history on SEVERAL Matrix objects (interleaved calls); nothing else is called in between.
 		long m = r.integer();
 		std::vector<Slot> slots(m);
+		std::vector<Refs> refs(m);
 		for(long q = 0; q < m; q++)
 			slots[q].p = new(slots[q].buf) Matrix(rd_mat(r));
 		long k = r.integer();
@@ -212,11 +315,12 @@ static void handler(vh::Reader& r, vh::Out& o)
 			{
 				// the object's lifetime ends and a new object is constructed in the same storage
 				std::vector<std::vector<double>> e = r.table();
+				refs[q].clear();
 				slots[q].p->~Matrix();
 				slots[q].p = new(slots[q].buf) Matrix(e);
 				o.w("U");
 			}
-			else if(!do_step(st, r, o, *slots[q].p, false))
+			else if(!do_step(st, r, o, *slots[q].p, false, refs[q]))
 				return;
 		}
 		for(long q = 0; q < m; q++)
